@@ -643,3 +643,17 @@ Proof.
   unfold w_steps. repeat constructor; unfold step_ok; simpl; try exact I; try discriminate.
   intros size H; inversion H; lia.
 Qed.
+
+(* the boundary of the roulette arithmetic: best expectation value exactly 0, alpha = beta = 0.  The guard
+   `evaluation_results[best] <= 0` (Qle_bool bv 0 in select_after_eval) gives offset 1, the fitness is 1, the weight 1/2:
+   selection completes.  (With a strict guard the fitness would be 0 and 1/(fitness + offset) would raise.) *)
+Definition z_pop : population Z := mkPop [w_a] (Some [w_a]) (Some [(w_a, [0%nat])]) (Some [(0%nat, w_a)]).
+Lemma roulette_zero_boundary :
+  species_consistent (individual_heq Z.eqb) z_pop
+  /\ selection_op (individual_heq Z.eqb) (fun _ => Ok 0%Q) (mkSel 0 0 None) z_pop [0%nat] [KChoices 1 (Some [1 # 2]) [0%nat]]
+     = ([CbCount 1; CbResult (mkRes z_pop [0%Q] w_a 0%Q)], Ok (mkPop [w_a] (Some [w_a]) None None)).
+Proof.
+  split; [|vm_compute; reflexivity].
+  exists [w_a], [(w_a, [0%nat])], [(0%nat, w_a)]. repeat split. intros i Hi. simpl in Hi.
+  assert (i = 0%nat) by lia. subst. exists w_a, [0%nat]. repeat split. discriminate.
+Qed.
